@@ -11,7 +11,8 @@
       the mapping); key `f._mapper` → content is read from the
       *input* `mapped_dict` (not from `out`), `None`/absent is skipped, a list is converted element-wise, anything
       else is converted as a document, the result is stored at `out[f]`; `FunctionCall` → arguments are read
-      from `out` (`v.args`, or `[k]` when `args` is empty/None), `out[k] = func(*args)`;
+      from `out` (`v.args`, or `[k]` when `args` is empty/None), `out[k] = func(*args)` — `func` is an arbitrary
+      function carried by the entry (`UserFn`), whatever it raises propagates;
       loop 2: string values → `out[k] = deep_get(out, v)`;
       loop 3: `Deleted` → `del out[k]` when present.
     On a non-dict content (reachable through `._mapper` entries) the exceptions Python raises are modelled
@@ -20,7 +21,7 @@
     semantics, also for `start ≤ 0`): `x = _convert(x, m)`; `x["version"] = start + offset + 1` — the version is
     counted by `convert_dict` itself, whatever the mapping did to the `version` key (typedpy commit f017e49).
 
-  Documents are JSON values; objects are association lists in Python's insertion order (`set` replaces in
+  Documents are JSON values (floats as exact ratios); objects are association lists in Python's insertion order (`set` replaces in
   place or appends, `erase` removes), so equality of model results is at least as fine as Python's `==`.
 -/
 namespace Typedpy.Convert
